@@ -713,32 +713,35 @@ theorem merge_total_order_free (Ps Qs : List PProfile) (hp : Ps.Perm Qs) (st st'
 
 
 open Qryn.Prof.Pprof in
-/-- **merge_sums_per_stack.** Read every sample's stack through the tables it refers to — each location as its address and
-    the functions of its lines, each function as (start line, name, system name, file name) STRINGS (`stStack` in the
-    merged tables, `inStack` in a payload's own). For every class `Q` of such resolved stacks and every value position:
-    the merged samples of the class carry the sum of the payloads' samples of the class. So `Merge` never moves weight
-    from one call stack to another, whatever the ids and the string tables of the payloads look like (shared, disjoint,
-    permuted, repeated strings). Hypothesis: fewer than 2^32 distinct functions (`hashLines` packs the function id into the
-    low 32 bits of the line key). -/
-theorem merge_sums_per_stack (Q : List RLoc → Bool) (Ps : List PProfile) (st : MState)
-    (h : mergeAll MState.empty Ps = .ok st) (hsmall : st.functions.length < 2 ^ 32) (j : Nat) :
+/-- **merge_sums_per_stack.** Read every sample through the tables it refers to — its stack: each location as its address and
+    the functions of its lines, each function as (start line, name, system name, file name) STRINGS; its string labels as
+    (key, value) STRINGS (`stStack`/`rLabelsK` in the merged tables, `inStack`/`inLabels` in a payload's own). For every class `Q`
+    of such (resolved stack, label set) pairs — `Q` must not depend on the order of the labels — and every value position:
+    the merged samples of the class carry the sum of the payloads' samples of the class. So `Merge` aggregates by stack and
+    string labels and never moves weight from one call stack or label set to another, whatever the ids and the string tables
+    of the payloads look like (shared, disjoint, permuted, repeated strings). Hypotheses: fewer than 2^32 functions and
+    strings (`hashLines` / `hashProfileLabels` pack two ids into one 64-bit word). -/
+theorem merge_sums_per_stack (Q : List RLoc → RLabels → Bool) (hQ : ∀ x a b, a.Perm b → Q x a = Q x b)
+    (Ps : List PProfile) (st : MState) (h : mergeAll MState.empty Ps = .ok st)
+    (hsmall : st.functions.length < 2 ^ 32) (hsmallS : st.strings.length < 2 ^ 32) (j : Nat) :
     stackTotal Q st j = inputStackTotal Q Ps j := by
-  have := mergeAll_stacks Q Ps MState.empty st valInv_empty refsOK_empty h hsmall j
+  have := mergeAll_stacks Q hQ Ps MState.empty st valInv_empty refsOK_empty h hsmall hsmallS j
   rw [this]
   simp [stackTotal, valTotalK, MState.empty]
 
 open Qryn.Prof.Pprof in
-/-- **merge_order_free_per_stack.** Hence the weight of every resolved stack (and of every class of stacks) is the
-    same for every order of the payloads — commutativity of the merge up to the numbering of the tables; together with
+/-- **merge_order_free_per_stack.** Hence the weight of every resolved (stack, string labels) class is the same for every
+    order of the payloads — commutativity of the merge up to the numbering of the tables; together with
     `merge_incremental_pprof` (merging `Ps ++ Qs` = merging `Qs` into the state of `Ps`) this is `merge_assoc_comm` for
     the weights. -/
-theorem merge_order_free_per_stack (Q : List RLoc → Bool) (Ps Qs : List PProfile) (hp : Ps.Perm Qs) (st st' : MState)
+theorem merge_order_free_per_stack (Q : List RLoc → RLabels → Bool) (hQ : ∀ x a b, a.Perm b → Q x a = Q x b)
+    (Ps Qs : List PProfile) (hp : Ps.Perm Qs) (st st' : MState)
     (h : mergeAll MState.empty Ps = .ok st) (h' : mergeAll MState.empty Qs = .ok st')
-    (hs : st.functions.length < 2 ^ 32) (hs' : st'.functions.length < 2 ^ 32) (j : Nat) :
+    (hs : st.functions.length < 2 ^ 32 ∧ st.strings.length < 2 ^ 32)
+    (hs' : st'.functions.length < 2 ^ 32 ∧ st'.strings.length < 2 ^ 32) (j : Nat) :
     stackTotal Q st j = stackTotal Q st' j := by
-  rw [merge_sums_per_stack Q Ps st h hs, merge_sums_per_stack Q Qs st' h' hs']
+  rw [merge_sums_per_stack Q hQ Ps st h hs.1 hs.2, merge_sums_per_stack Q hQ Qs st' h' hs'.1 hs'.2]
   exact sum_perm_int (hp.map _)
-
 
 open Qryn.Prof.Pprof in
 /-- **merge_conserves_values_wellformed.** For payloads whose references resolve (`WellFormed`: what pprof's `CheckValid`
@@ -773,6 +776,12 @@ def view (r : Except MergeErr MState) : List (List Int × List Int) :=
   | .ok st => (result st).samples.map (fun (s : PSample) => (s.vals, s.labels.map (·.num)))
   | .error _ => []
 end MergeWitness
+
+open Qryn.Prof.Pprof MergeWitness in
+/-- the hypotheses of the payload-merge theorems are satisfiable: the two payloads are accepted, the tables are small -/
+example : (match mergeAll MState.empty [pA, pB] with
+    | .ok st => decide (st.functions.length < 2 ^ 32 ∧ st.strings.length < 2 ^ 32)
+    | .error _ => false) = true := by decide +kernel
 
 open Qryn.Prof.Pprof MergeWitness in
 /-- the full commutativity one might expect: the merged samples (values AND label numbers) do not depend on the order -/
